@@ -922,6 +922,12 @@ func (q *qgen) havingExpr(outs []string, depth int) string {
 	if depth >= 3 {
 		return cmp()
 	}
+	if r.chance(1, 12) {
+		// a comparison that is not wrapped in parentheses followed by AND / OR: the grammar derives it, the
+		// evaluator builder refuses it (it would drop everything after the comparison); such a statement
+		// must be rejected or mean the whole expression
+		return cmp() + []string{" and ", " or "}[r.intn(2)] + q.havingExpr(outs, depth+1)
+	}
 	switch r.intn(6) {
 	case 0:
 		return "not " + q.havingExpr(outs, depth+1)
